@@ -1582,6 +1582,91 @@ def ob_following_pressure(nPe, canary=False):
 
 
 @_guard
+def ob_frame_element(dim, nPe, law, reflect=False, canary=False):
+    """frame indifference of the element stiffness, all Ne, nPg: with the problem turned by Q (shape-function gradients dN' = Q dN -- what C08.gp.pipeline gives for x' = Q x + c --,
+    |J| unchanged, material turned with the problem: C' = Kelvin-Mandel image of the Q-rotated tensor, which C11.Pmat.tensor proves Apply_Pmat returns), the real Get_B_e_pg and
+    LinearizedElasticity give  K'[(n,k),(m,l)] == sum_ab Q_ka Q_lb K[(n,a),(m,b)]  -- the stiffness of the turned problem is the turned stiffness, for every rotation (Cayley
+    parameters; composed with a reflection when `reflect`)."""
+    ns = {2: 3, 3: 6}[dim]
+    nd = nPe * dim
+    csyms = tuple(f"c{i}{j}" for i in range(ns) for j in range(i, ns)) if law == "general" else ("lam", "mu")
+    rot = ("a",) if dim == 2 else ("a", "b", "c")
+    sp = gen.Space(dict(wJ=(NE, NPG), dN=(NE, NPG, dim, nPe)), scalars=csyms + rot)
+    g, NPs, Fe = env(sp, "EasyFEA.FEM._group_elem")
+    gb, _, _ = env(sp, "EasyFEA.FEM.Operators.Bilinear")
+    gb["FeArray"], gb["np"] = g["FeArray"], g["np"]
+    fns = module_fns(BP, gb, ["einsum", "LinearizedElasticity"])
+    one, zero = sp.const(1), sp.const(0)
+    if dim == 2:
+        a = sp.sym("a")
+        den = one + a * a
+        Q = [[(one - a * a) / den, -2 * a / den], [2 * a / den, (one - a * a) / den]]
+    else:
+        a, b, c_ = sp.sym("a"), sp.sym("b"), sp.sym("c")
+        den = one + a * a + b * b + c_ * c_
+        Q = [[(one + a * a - b * b - c_ * c_) / den, 2 * (a * b - c_) / den, 2 * (a * c_ + b) / den],
+             [2 * (a * b + c_) / den, (one - a * a + b * b - c_ * c_) / den, 2 * (b * c_ - a) / den],
+             [2 * (a * c_ - b) / den, 2 * (b * c_ + a) / den, (one - a * a - b * b + c_ * c_) / den]]
+    if reflect:
+        Q = [[-Q[i][0]] + Q[i][1:] for i in range(dim)]          # Q . diag(-1, 1, ...): determinant -1
+    Qa = sp.lift(np.array(Q, dtype=object))
+    r2 = sp.ctx.sqrt_rational(F(2))
+    pairs = {2: [(0, 0), (1, 1), (0, 1)], 3: [(0, 0), (1, 1), (2, 2), (1, 2), (0, 2), (0, 1)]}[dim]
+    if law == "general":
+        C = [[sp.sym(f"c{min(i, j)}{max(i, j)}") for j in range(ns)] for i in range(ns)]
+    else:
+        lam_, mu = sp.sym("lam"), sp.sym("mu")
+        C = [[(lam_ if (i < dim and j < dim) else zero) + (2 * mu if i == j else zero) for j in range(ns)] for i in range(ns)]
+    # fourth-order tensor of C, turned by Q, back to Kelvin-Mandel
+    fac = lambda i, j: one if i == j else r2
+    T4 = {}
+    for I, (i, j) in enumerate(pairs):
+        for J, (k, l) in enumerate(pairs):
+            v = C[I][J] / (fac(i, j) * fac(k, l))
+            for (p_, q_) in {(i, j), (j, i)}:
+                for (r_, s_) in {(k, l), (l, k)}:
+                    T4[(p_, q_, r_, s_)] = v
+    rng_ = range(dim)
+    Cq = [[zero] * ns for _ in range(ns)]
+    for I, (i, j) in enumerate(pairs):
+        for J, (k, l) in enumerate(pairs):
+            tot = zero
+            for (p_, q_, r_, s_), v in T4.items():
+                tot = tot + Q[i][p_] * Q[j][q_] * Q[k][r_] * Q[l][s_] * v
+            Cq[I][J] = tot * fac(i, j) * fac(k, l)
+    Ca, Cqa = sp.lift(np.array(C, dtype=object)), sp.lift(np.array(Cq, dtype=object))
+
+    class Gs:
+        nPg = NPG
+
+    def stiffness(dN_field, Cmat):
+        me = sx.Mock("self", Ne=NE, nPe=nPe, dim=dim, Get_dN_e_pg=lambda mt: dN_field, Get_gauss=lambda mt: Gs())
+        B = fn_of(GP, "_GroupElem.Get_B_e_pg", g)(me, "rigi")
+        grp = sx.Mock("groupElem", dim=dim, nPe=nPe, Ne=NE, Get_weightedJacobian_e_pg=lambda mt: sp.fe("wJ"), Get_B_e_pg=lambda mt: B,
+                      Get_leftDispPart_e_pg=lambda mt: GFe._wrap(gen.einsum("ep,epij->epji", sp.arr("wJ"), _plain(B))))
+        return _plain(fns["LinearizedElasticity"](grp, Cmat))
+    K = stiffness(sp.fe("dN"), Ca)
+    dNq = gen.einsum("ij,epjn->epin", Qa, sp.arr("dN"))
+    Kq = stiffness(GFe._wrap(dNq), Ca if canary else Cqa)           # canary: the material is NOT turned with the problem
+    want = gen.einsum("ka,lb,enamb->enkml", Qa, Qa, K.reshape(NE, nPe, dim, nPe, dim)).reshape(NE, nd, nd)
+    check(Kq, want, f"stiffness of the turned element (dim {dim}, nPe {nPe}, {law} law{', reflected' if reflect else ''}) vs the turned stiffness", f"frame:K:{dim}:{nPe}:{law}:{reflect}")
+    return Verdict(DISCHARGED, backend=BACKEND + "; rotation by its Cayley parameters", sub=nd * nd)
+
+
+def frame_obligations(prop, tier):
+    obs = []
+    cases = [(2, 3, "iso", False), (2, 3, "general", False), (2, 3, "general", True), (2, 4, "general", False)]
+    if tier == "thorough":
+        cases += [(2, 6, "general", False), (3, 4, "iso", False), (3, 4, "iso", True)]
+    for dim, nPe, law, refl in cases:
+        obs.append(Ob(f"{prop}.gp.element.{dim}d.n{nPe}.{law}{'.reflected' if refl else ''}", ob_frame_element, (dim, nPe, law, refl), "P",
+                      (f_(GP, "_GroupElem.Get_B_e_pg"), f_(BP, "LinearizedElasticity")),
+                      clause="K(Q dN, C turned by Q) == (Q (x) Q) K(dN, C) for every rotation / reflection Q, every anisotropic law (2-D) or isotropic law (3-D), at the generic (e, p); all Ne, nPg", timeout=1800))
+    obs.append(Ob(f"{prop}.gp.canary.element", ob_frame_element, (2, 3, "general", False, True), "P", expect=REFUTED, clause="an anisotropic material left unturned must be refuted", timeout=300))
+    return obs
+
+
+@_guard
 def ob_penalty_contact(dim, nPe, sgn):
     """NonLinear.PenaltyContact on a contact surface group (all its elements), gap < 0 (penetration) or > 0 (open) at the generic (e, p), decided at the witness, both run:
     R[e, dim i + c] == eps sum_p wJ <-g> N_i n_c  and  K[e, dim i + c, dim j + d] == eps sum_p wJ H(-g) N_i N_j n_c n_d (the derivative of R along the normal); zero penalty -> exact zeros"""
